@@ -18,15 +18,23 @@
      [max(start, first-0x7FFE), new start) as received and everything else in
      the range as not received.
 
+   * a build leaves no retained arrival at or after the start pointer
+     (C05_build_complete).
+
+   * Record keeps the start pointer at or below what it stores
+     (C05_record_start_covers);
+   * arrival_map_refines: the concrete circular buffer implements the abstract
+     map for every AddPacket/RemoveOldPackets sequence.
+
    NOT proved (decided by the correspondence + specification oracle only, see
-   design-notes/C05.md): that a whole build leaves no retained arrival at or
-   after the start pointer unreported (loop completeness), the start-pointer
-   bookkeeping across Record/cull (that "retained" as the model's map keeps it
-   is the reading of the oracle), the 125 us bound restated per reported entry
-   at the history level (proved per addReceived), and the refinement of the
-   concrete circular buffer (cmap) to the abstract map. *)
+   design-notes/C05.md): the assembly of the above into ONE statement over
+   histories with a ghost "already reported" set (the pieces are proved per
+   Record, per packet and per build, their composition is argued in prose
+   only), that the model's map is the retained set of the oracle's reading
+   (truth_record), and that the buffer capacity is always a power of two (the
+   model writes Go's "sn & (cap-1)" as "sn mod cap"). *)
 From IV Require Import Base.Word Model.TwccChunk Model.ArrivalMap Model.TwccRecorder Proofs.TwccChunkProofs
-  Proofs.TwccFeedbackProofs Proofs.ArrivalMapProofs Proofs.TwccRecorderProofs.
+  Proofs.TwccFeedbackProofs Proofs.ArrivalMapProofs Proofs.ArrivalMapRefine Proofs.TwccRecorderProofs.
 
 (* chunk_roundtrip: feeding ANY list of status symbols (0 not received, 1 small
    delta, 2 large delta) through canAdd/encode/add and draining it as getRTCP
@@ -126,6 +134,31 @@ Theorem C05_remove_loop_closed_form : forall m sn limit, am_inv m -> -1 <= limit
 Proof. exact am_remove_old_go_eq. Qed.
 Print Assumptions C05_remove_loop_closed_form.
 
+(* arrival_map_refines: the concrete circular buffer of arrival_time_map.go
+   (zero-initialised power-of-two slice, index = sn mod capacity, reallocate,
+   adjustToSize growing/shrinking, setNotReceived) implements the abstract map
+   the recorder model runs on: from the empty buffer, after ANY sequence of
+   AddPacket / RemoveOldPackets (the latter only once allocated and with
+   limit >= -1, as Record calls it) begin, end and allocation agree, the
+   valid range fits the capacity, and every slot of the range reads what the
+   abstract map holds - hence get / HasReceived / Clamp / FindNextAtOrAfter
+   agree (C05_arrival_map_reads).  Capacity being a power of two (so that
+   Go's "sn & (cap-1)" is "sn mod cap") is not part of this theorem. *)
+Theorem C05_arrival_map_refines : forall os,
+  ops_ok false os ->
+  cm_rel (fold_left cm_step os cm_empty) (fold_left am_step os am_empty) /\
+  am_inv (fold_left am_step os am_empty).
+Proof. intros os H. apply arrival_map_refines; [apply cm_rel_empty|apply am_inv_empty|exact H]. Qed.
+Print Assumptions C05_arrival_map_refines.
+
+Example C05_refines_nonvacuous : ops_ok false [OpAdd 5 100; OpAdd 9 700000; OpRemoveOld 9 200000; OpAdd 3 700100].
+Proof. cbn. repeat split; lia. Qed.
+Print Assumptions C05_refines_nonvacuous.
+
+Theorem C05_arrival_map_reads : forall c a k, cm_rel c a -> cm_get c k = am_get a k.
+Proof. intros c a k H. apply cm_rel_get, H. Qed.
+Print Assumptions C05_arrival_map_reads.
+
 (* C05_build, PARTIAL (one packet; see the header for what is missing):
    maybeBuildFeedbackPacket(b, end) in a state satisfying the map invariant
    either finds no received entry at or after Clamp(b) and leaves the start
@@ -135,7 +168,9 @@ Print Assumptions C05_remove_loop_closed_form.
    of the range below the new start pointer as received (1/2), in order, none
    skipped, every other number not received (syms_of), plus < 7 padding zeros;
    one delta per reported arrival; reference time = first arrival / 64 ms mod
-   2^24; and the new start pointer is base + count. *)
+   2^24; the new start pointer is base + count; and the times a receiver
+   decodes (running sums of the deltas from the reference time, psums) are each
+   within 125 us of the retained arrival time of the entry they belong to. *)
 Theorem C05_build_packet_partial : forall sender r b media fbc,
   am_inv (r_map r) -> b < m_end (r_map r) ->
   let m := r_map r in
@@ -151,11 +186,40 @@ Theorem C05_build_packet_partial : forall sender r b media fbc,
         map fst (p_deltas p) = map snd rep /\
         p_base p = baseU mod 65536 /\
         p_ref p = (Z.quot t0 64000 mod 4294967296) mod 16777216 /\
-        next' = baseU + p_count p /\ first < next' <= m_end m
+        next' = baseU + p_count p /\ first < next' <= m_end m /\
+        Forall2 (fun t T => Z.abs (t - T) <= 125)
+                (map snd (filter (fun e => (snd e >=? 0) && (fst e <? next')) (range_ents m b)))
+                (psums (Z.quot t0 64000 * 64000) (map snd (p_deltas p)))
   | (None, next', _) => next' = b
   end.
 Proof. exact build_packet_spec. Qed.
 Print Assumptions C05_build_packet_partial.
+
+(* a build leaves nothing behind: after BuildFeedbackPacket in a state with the
+   map invariant the start pointer is at the end of the window or no retained
+   arrival (time >= 0) lies at or after it - every one was put into a packet
+   (each packet reports all of its range, C05_build_packet_partial, and the
+   next packet starts where the previous one stopped) *)
+Theorem C05_build_complete : forall sender r s, am_inv (r_map r) -> r_start r = Some s ->
+  exists s', r_start (fst (rec_build sender r)) = Some s' /\ nothing_left (r_map r) s'.
+Proof. exact build_complete. Qed.
+Print Assumptions C05_build_complete.
+
+(* "recorded since the previous feedback": Record keeps the start pointer at or
+   below the number it has just recorded and at or below every map entry the
+   pointer was at or below before - so whatever was stored since the last
+   build and is still retained lies in the range the next build starts from
+   (and C05_build_complete / C05_build_packet_partial say that range is
+   reported completely) *)
+Theorem C05_record_start_covers : forall r ssrc seq t,
+  am_inv (r_map r) ->
+  let r' := rec_record r ssrc seq t in
+  let u := snd (IV.Model.Unwrapper.unwrap (r_unw r) seq) in
+  exists s', r_start r' = Some s' /\
+    forall k v, In (k, v) (m_ent (r_map r')) ->
+      (k = u \/ exists s, r_start r = Some s /\ s <= k) -> s' <= k.
+Proof. exact record_start. Qed.
+Print Assumptions C05_record_start_covers.
 
 (* feedback packets of one build cover consecutive, non-overlapping ranges:
    in every build of every Record/Build history each packet's base is the
